@@ -67,15 +67,20 @@ theorem CX_false_of_not_lt {x y : Ins} (h : ¬ x.name < y.name) : CX x y = false
 
 /-- `commutation_rules` in closed form -/
 theorem commRules_eq (a b : Ins) : commRules a b =
-    if a.name = b.name then ((!a.controls.isEmpty && a.controls == b.controls) || a.targets == b.targets)
+    if a.name = b.name then
+      (a.sc && b.sc) && ((!a.controls.isEmpty && a.controls == b.controls) || a.targets == b.targets)
     else (CX a b || CX b a) := by
   unfold commRules
   by_cases hn : a.name = b.name
   · simp only [hn, bne_self_eq_false, Bool.false_eq_true, if_false, if_true]
-    by_cases hc : (!a.controls.isEmpty && a.controls == b.controls) = true
-    · simp [hc]
-    · simp only [hc, if_false, Bool.not_eq_true] at *
-      simp [hc]
+    by_cases hs : (a.sc && b.sc) = true
+    · simp only [hs, Bool.not_true, Bool.false_eq_true, if_false, Bool.true_and]
+      by_cases hc : (!a.controls.isEmpty && a.controls == b.controls) = true
+      · simp [hc]
+      · simp only [hc, if_false, Bool.not_eq_true] at *
+        simp [hc]
+    · have hs' : (a.sc && b.sc) = false := by simpa using hs
+      simp [hs']
   · have hne : (a.name != b.name) = true := by simpa using hn
     simp only [hne, if_true, hn, if_false]
     by_cases hlt : b.name < a.name
@@ -89,7 +94,8 @@ theorem commRules_symm (a b : Ins) : commRules a b = commRules b a := by
   by_cases hn : a.name = b.name
   · simp only [hn, if_true]
     rw [show (b.targets == a.targets) = (a.targets == b.targets) from BEq.comm,
-      show (b.controls == a.controls) = (a.controls == b.controls) from BEq.comm]
+      show (b.controls == a.controls) = (a.controls == b.controls) from BEq.comm,
+      show (b.sc && a.sc) = (a.sc && b.sc) from Bool.and_comm _ _]
     by_cases hc : a.controls = b.controls
     · rw [hc]
     · rw [show (a.controls == b.controls) = false from by simpa using hc]
@@ -98,10 +104,12 @@ theorem commRules_symm (a b : Ins) : commRules a b = commRules b a := by
     simp only [hn, this, if_false, Bool.or_comm]
 
 /-- **the pairs `commutation_rules` declares commuting** (given that they share a qubit the
-scheduler asks nothing else): same name with equal non-empty controls or equal targets; `CNOT`
-with `X`/`RX` on the `CNOT`'s target; `CNOT` with `Z`/`RZ` on the `CNOT`'s control. -/
+scheduler asks nothing else): same name (of a family the module lists as self-commuting, when it has
+such a list) with equal non-empty controls or equal targets; `CNOT` with `X`/`RX` on the `CNOT`'s
+target; `CNOT` with `Z`/`RZ` on the `CNOT`'s control. -/
 theorem commRules_true_iff (a b : Ins) : commRules a b = true ↔
-    (a.name = b.name ∧ ((a.controls ≠ [] ∧ a.controls = b.controls) ∨ a.targets = b.targets)) ∨
+    (a.name = b.name ∧ a.sc = true ∧ b.sc = true ∧
+      ((a.controls ≠ [] ∧ a.controls = b.controls) ∨ a.targets = b.targets)) ∨
     (a.name = "CNOT" ∧ (b.name = "X" ∨ b.name = "RX") ∧ a.targets = b.targets) ∨
     (a.name = "CNOT" ∧ (b.name = "Z" ∨ b.name = "RZ") ∧ a.controls = b.targets) ∨
     (b.name = "CNOT" ∧ (a.name = "X" ∨ a.name = "RX") ∧ b.targets = a.targets) ∨
@@ -117,9 +125,9 @@ theorem commRules_true_iff (a b : Ins) : commRules a b = true ↔
   · simp only [hn, if_true, Bool.or_eq_true, Bool.and_eq_true, Bool.not_eq_true', beq_iff_eq,
       List.isEmpty_eq_false_iff, true_and]
     constructor
-    · intro h; exact Or.inl h
+    · intro h; exact Or.inl ⟨h.1.1, h.1.2, h.2⟩
     · rintro (h | ⟨h1, h2 | h2, _⟩ | ⟨h1, h2 | h2, _⟩ | ⟨h1, h2 | h2, _⟩ | ⟨h1, h2 | h2, _⟩)
-      · exact h
+      · exact ⟨⟨h.1, h.2.1⟩, h.2.2⟩
       all_goals (rw [h1] at h2; exact absurd h2 (by decide))
   · simp only [hn, if_false, Bool.or_eq_true, hCX, false_and, false_or]
     tauto
@@ -154,9 +162,9 @@ theorem nameCls_cases (s : String) :
 
 /-- `commutation_rules` on the abstraction: classes of the two names, `sameName`,
 `a.controls` non-empty, `a.controls = b.controls`, `a.targets = b.targets`,
-`a.controls = b.targets`, `b.controls = a.targets` -/
-def commAbs (ca cb : NameCls) (same cne ceq teq act bct : Bool) : Bool :=
-  if same then (cne && ceq) || teq
+`a.controls = b.targets`, `b.controls = a.targets`; `sc`: both names are listed as self-commuting -/
+def commAbs (ca cb : NameCls) (same sc cne ceq teq act bct : Bool) : Bool :=
+  if same then sc && ((cne && ceq) || teq)
   else match ca, cb with
     | .cnot, .x | .cnot, .rx | .x, .cnot | .rx, .cnot => teq
     | .cnot, .z | .cnot, .rz => act
@@ -164,7 +172,7 @@ def commAbs (ca cb : NameCls) (same cne ceq teq act bct : Bool) : Bool :=
     | _, _ => false
 
 theorem commRules_abs (a b : Ins) : commRules a b =
-    commAbs (nameCls a.name) (nameCls b.name) (a.name == b.name) (!a.controls.isEmpty)
+    commAbs (nameCls a.name) (nameCls b.name) (a.name == b.name) (a.sc && b.sc) (!a.controls.isEmpty)
       (a.controls == b.controls) (a.targets == b.targets) (a.controls == b.targets) (b.controls == a.targets) := by
   rw [commRules_eq]
   by_cases hn : a.name = b.name
@@ -178,9 +186,9 @@ theorem commRules_abs (a b : Ins) : commRules a b =
 
 set_option synthInstance.maxSize 2000 in
 /-- the table: which abstract situations are answered `true` -/
-theorem commAbs_true_iff : ∀ (ca cb : NameCls) (same cne ceq teq act bct : Bool),
-    commAbs ca cb same cne ceq teq act bct = true ↔
-      (same = true ∧ ((cne = true ∧ ceq = true) ∨ teq = true)) ∨
+theorem commAbs_true_iff : ∀ (ca cb : NameCls) (same sc cne ceq teq act bct : Bool),
+    commAbs ca cb same sc cne ceq teq act bct = true ↔
+      (same = true ∧ sc = true ∧ ((cne = true ∧ ceq = true) ∨ teq = true)) ∨
       (same = false ∧ (
         ((ca = .cnot ∧ (cb = .x ∨ cb = .rx)) ∧ teq = true) ∨ ((cb = .cnot ∧ (ca = .x ∨ ca = .rx)) ∧ teq = true) ∨
         ((ca = .cnot ∧ (cb = .z ∨ cb = .rz)) ∧ act = true) ∨ ((cb = .cnot ∧ (ca = .z ∨ ca = .rz)) ∧ bct = true))) := by
